@@ -130,6 +130,18 @@ func (n c20Namer) TableName(s string) string {
 	return n.NamingStrategy.TableName(s)
 }
 
+// The relation families of c20_rel.go come in two versions whose Go type names differ by a trailing "a" (C20rUser9a /
+// C20rUser9) although they stand for ONE model that gained fields.  gorm derives the names of a join table's constraints
+// from the owner's type name; a real model keeps its name, so the version suffix is taken out here (harness artefact).
+var c20VerSuffix = regexp.MustCompile(`^(C20r[A-Za-z]+\d+)a$`)
+
+func (n c20Namer) RelationshipFKName(rel schema.Relationship) string {
+	if m := c20VerSuffix.FindStringSubmatch(rel.Name); m != nil {
+		rel.Name = m[1]
+	}
+	return n.NamingStrategy.RelationshipFKName(rel)
+}
+
 func c20Open(table string) (*gorm.DB, *Recorder) {
 	db, rec, _ := OpenRec(&gorm.Config{NowFunc: fixedNowFunc,
 		NamingStrategy: c20Namer{NamingStrategy: schema.NamingStrategy{IdentifierMaxLength: 64}, anon: table}})
